@@ -171,6 +171,47 @@ func pkgOfType(t types.Type) string {
 
 func typeNameFull(t types.Type) string { return types.TypeString(t, nil) }
 
+// fatalLog models the one zerolog behaviour that is not inert (A-zerolog-fatal): an event started with
+// log.Fatal()/Logger.Fatal() ends the process (os.Exit(1)) when it is sent with Msg/Msgf/Send, so control does not
+// continue behind such a statement. Events are tracked from the exact constructor through the chained field
+// methods (which return the same event) to the terminal method; nothing else in the logging packages is
+// interpreted.
+func (fr *Frame) fatalLog(full string, args []Value, st *State, pc Term, resT types.Type) (Value, bool) {
+	u := fr.u
+	switch full {
+	case "github.com/rs/zerolog/log.Fatal", "(*github.com/rs/zerolog.Logger).Fatal", "(github.com/rs/zerolog.Logger).Fatal":
+		v := fr.inertResult(resT, st)
+		if p, ok := v.(PtrV); ok {
+			if u.fatalEvents == nil {
+				u.fatalEvents = map[string]bool{}
+			}
+			u.fatalEvents[p.Base.S] = true
+		}
+		return v, true
+	}
+	if !strings.HasPrefix(full, "(*github.com/rs/zerolog.Event).") || len(args) == 0 {
+		return nil, false
+	}
+	recv, ok := args[0].(PtrV)
+	if !ok || !u.fatalEvents[recv.Base.S] {
+		return nil, false
+	}
+	switch strings.TrimPrefix(full, "(*github.com/rs/zerolog.Event).") {
+	case "Msg", "Msgf", "Send":
+		u.extUsed["A-zerolog-fatal: a log.Fatal() event ends the process when sent (control does not continue)"] = true
+		*st = *(&State{heap: st.heap, alloc: st.alloc, ghost: st.ghost})
+		u.c.Assume(Not(pc))
+		return u.m.FreshValue(st, "noreturn", resT), true
+	}
+	v := fr.inertResult(resT, st)
+	if p, ok := v.(PtrV); ok {
+		if _, isPtr := resT.Underlying().(*types.Pointer); isPtr && pkgOfType(resT) == "github.com/rs/zerolog" {
+			u.fatalEvents[p.Base.S] = true
+		}
+	}
+	return v, true
+}
+
 func (fr *Frame) inertResult(resT types.Type, st *State) Value {
 	u := fr.u
 	v := u.m.FreshValue(st, "inert", resT)
@@ -219,6 +260,9 @@ func (fr *Frame) callFunction(fn *ssa.Function, bindings []Value, args []Value, 
 	// 4. inert packages
 	if isInertPkg(pp) {
 		fr.lockEffect(full, args, st)
+		if v, done := fr.fatalLog(full, args, st, pc, resT); done {
+			return v
+		}
 		return fr.inertResult(resT, st)
 	}
 	if v, ok := fr.knownExternal(fn, full, args, st, pc, pos, resT); ok {
@@ -497,7 +541,7 @@ func (fr *Frame) appendOp(cc *ssa.CallCommon, args []Value, st *State, pc Term, 
 	arr := m.Alloc(st, "apparr")
 	newCap := u.c.Fresh("appcap", SInt)
 	u.c.Assume(Ge(newCap, newLen))
-	u.c.Assume(Le(newCap, IntLit(1<<47)))
+	u.c.Assume(Le(newCap, BigLit(maxElems(cc.Args[0].Type())))) // A-slice-size (running out of memory is outside the model)
 	p := PtrV{Base: arr, Obj: elem, Arr: true}
 	for _, lf := range leaves(elem) {
 		name, _ := compName(p, lf.Path)
